@@ -480,6 +480,22 @@ def _owned_call(self, e: ast.Call, steps, fr: Frame, depth, stack) -> Tuple[bool
         return True, "deep copy"
     if last in PARSE_CALLS:
         return True, "freshly parsed tree"
+    # an accessor (`x.list()` returning `self.args_list`): the object handed out is that part of the receiver - it is owned only if
+    # the receiver owns it that far down (a shallow copy of the receiver shares it with the original)
+    if isinstance(e.func, ast.Attribute) and not e.args and not e.keywords and self.prog.resolve_class(e.func, fr.mi) is None:
+        callees_ = [c for c in self.eff.resolve_call(e, fr.mi, fr.ci, fr.fn) if c in self.eff.funcs]
+        cands_ = callees_ or [fid for fid, (cmi, cfn, cci) in self.eff.funcs.items() if cci is not None and cfn.name == e.func.attr and len(cfn.args.args) == 1]
+        if cands_ and all(self._returns_part_of_self(c) for c in cands_):
+            attrs_ = set()
+            for c in cands_:
+                for r_ in walk_no_nested(self.eff.funcs[c][1]):
+                    if isinstance(r_, ast.Return) and isinstance(r_.value, ast.Attribute) and isinstance(r_.value.value, ast.Name):
+                        attrs_.add(r_.value.attr)
+                    elif isinstance(r_, ast.Return) and r_.value is not None:
+                        attrs_.add(None)
+            if len(attrs_) == 1 and None not in attrs_:
+                ok, why = rec(e.func.value, [("attr", next(iter(attrs_)))] + steps)
+                return ok, f"part of {unparse(e.func.value)[:30]} ({why})"
     if not steps:
         ok, why = self.fresh(e, fr.fn, fr.mi, fr.ci)
         if ok:
